@@ -13,8 +13,11 @@ from .common import Check, coq_list
 TRUSTED = [
     'Coq 8.16.1 kernel and vm_compute (two finite calendar sweeps over 1900-2199 are evaluated by vm_compute; the bound '
     'is stated in the theorems); axioms: none',
-    'modelled, not verified: pandas.Timestamp parsing of the documented YYYY/MM/DD form and pandas.date_range; '
-    'hand-written model/Dates.v tied by executed correspondence',
+    'translator translate/py2v.py target dates: utils.expand_time_windows and TimeWindow.__post_init__ are regenerated into '
+    'gen/Gen_Dates.v on every run (days as integer day numbers; pd.date_range(a, b, freq="D") read as the integer range a..b, '
+    'list(set(l)) as duplicate removal, isinstance(x, pd.Timestamp) as true) and proved equal to the model (proofs/DatesBridge.v)',
+    'modelled, not verified: pandas.Timestamp parsing of the documented YYYY/MM/DD form, the string splitting in '
+    'find_days_to_exclude and pandas.date_range; hand-written model/Dates.v tied by executed correspondence',
     'harness: strings are built from structured (year, month, day) specifications; expected days by datetime.date',
 ]
 
@@ -127,7 +130,7 @@ PRELUDE = ('From Coq Require Import List ZArith Bool.\nFrom MM Require Import mo
 
 def run(tier):
   ck = Check('C20', tier)
-  ck.prove('props/C20.v', gen_targets=[], extra=['harness/RunC20.vo'])
+  ck.prove('props/C20.v', gen_targets=['dates'], extra=['harness/RunC20.vo'])
   rng = random.Random(ck.seed * 41 + 20)
   n = common.sz(tier, 1000, 50000)
   cases = [gen_entries(rng, malformed=(i % 4 == 3)) for i in range(n)]
